@@ -57,6 +57,8 @@ func coCopyMap(m map[string]string) map[string]string {
 }
 
 func runC09Impl(c C09Case) c09Run {
+	guardEnter(c)
+	defer guardLeave()
 	var r c09Run
 	msgs, err := coal.BuildAll(c.Recs)
 	if err != nil {
